@@ -104,7 +104,7 @@ def c09_auto_bodies(mods, specs):
         explicit = {}
         for s in ss:
             cname = [t for t in s.tags if t.startswith("x_")]
-            if cname:
+            if cname and s.mod in mods:
                 for f in mods[s.mod]["fns"]:
                     explicit.setdefault(helper_norm(f["key"]), set()).add(norm_body(f["canon"]))
                 for st in mods[s.mod]["structs"]:
@@ -113,6 +113,11 @@ def c09_auto_bodies(mods, specs):
             if any(t.startswith("x_") for t in s.tags):
                 continue
             bad = []
+            if s.mod not in mods:
+                # rejected by the macro / rustc on this tree: reported by the compile checks, nothing to compare here
+                out.append({"id": "S/auto-body/%s" % s.mod, "ok": False, "undecided_if_bad": True,
+                            "detail": "the module was rejected by the macro or rustc, so its bodies cannot be compared", "sample": {"enum": g, "features": s.features}})
+                continue
             for f in mods[s.mod]["fns"]:
                 k = helper_norm(f["key"])
                 if norm_body(f["canon"]) not in explicit.get(k, set()):
@@ -230,6 +235,9 @@ def c10_base_specs():
 
 
 def token_identity(mods, a, b, what=("fns", "consts", "structs")):
+    if a not in mods or b not in mods:
+        # one declaration is accepted and the other rejected: a difference; both rejected: nothing to compare
+        return [] if (a not in mods and b not in mods) else ["<%s is rejected by the macro or rustc, %s is not>" % ((a, b) if a not in mods else (b, a))]
     ma, mb = mods[a], mods[b]
     diffs = []
     fa = {f["key"]: norm_body(f["canon"]) + "|" + f["sig"].replace(ma["enum"]["ident"], "E") for f in ma["fns"]}
@@ -317,6 +325,8 @@ def c15_specs():
 def c15_check(mods, specs):
     out = []
     for s in specs:
+        if s.mod not in mods:
+            continue      # rejected: reported as S/surface-compiles
         m = mods[s.mod]
         cfg = s.cfg
         bad = []
@@ -746,8 +756,14 @@ def run_layer_s(scratch, tier, seed):
         if "repr" in s.tags:
             rg.setdefault(s.mod.rsplit("_", 1)[0], []).append(s)
     for g, ss in sorted(rg.items()):
+        if ss[0].mod not in mods:
+            continue
         base = repr_neutral(mods[ss[0].mod])
         for o in ss[1:]:
+            if o.mod not in mods:
+                c18.append({"id": "S/repr/%s" % o.mod, "ok": False, "detail": "rejected by the macro or rustc while the same declaration with repr %s is accepted" % ss[0].repr,
+                            "sample": {"repr": o.repr, "against": ss[0].repr}})
+                continue
             fp = repr_neutral(mods[o.mod])
             diffs = [k for i in range(3) for k in set(base[i]) | set(fp[i]) if base[i].get(k) != fp[i].get(k)]
             c18.append({"id": "S/repr/%s" % o.mod, "ok": not diffs, "detail": "" if not diffs else "after renaming the repr the expansion differs from %s in: %s" % (ss[0].repr, ", ".join(sorted(diffs)[:6])),
